@@ -912,6 +912,22 @@ def tysContainTypeParam : List Ty → Bool
   | t :: ts => tyContainsTypeParam t || tysContainTypeParam ts
 end
 
+/-- `ref__T(value)`: `return &ref_T{value: value}` -/
+def refFn (t elem : Ty) : GFunc :=
+  { name := helperFnName "ref" t, params := [("value", goTy elem)], ret := some (.ptr (.name (refStructName elem))),
+    body := [.ret (some (.un .addr (.ptr (.name (refStructName elem)))
+      (.slit (.name (refStructName elem)) [.mk "value" (sV "value" (goTy elem))])))] }
+/-- `ref_get__T(reference)`: `return reference.value` -/
+def refGetFn (t elem : Ty) : GFunc :=
+  { name := helperFnName "ref_get" t, params := [("reference", .ptr (.name (refStructName elem)))], ret := some (goTy elem),
+    body := [.ret (some (.field "value" (goTy elem) (sV "reference" (.ptr (.name (refStructName elem))))))] }
+/-- `ref_set__T(reference, value)`: `reference.value = value; return struct{}{}` -/
+def refSetFn (t elem : Ty) : GFunc :=
+  { name := helperFnName "ref_set" t, params := [("reference", .ptr (.name (refStructName elem))), ("value", goTy elem)],
+    ret := some .unit,
+    body := [.fieldAssign (.field "value" (goTy elem) (sV "reference" (.ptr (.name (refStructName elem))))) (sV "value" (goTy elem)),
+             .ret (some unitE)] }
+
 /-- `make_ref_runtime`: the cell struct and three helpers per collected reference type -/
 def refRuntime : List Ty → List GItem
   | [] => []
@@ -920,18 +936,8 @@ def refRuntime : List Ty → List GItem
      | .ref elem =>
        if tyContainsTypeParam elem then []
        else
-         let sn := refStructName elem
-         let sTy : GTy := .name sn
-         let rTy : GTy := .ptr sTy
-         let elTy := goTy elem
-         [.structDef sn [("value", elTy)] [],
-          .func { name := helperFnName "ref" t, params := [("value", elTy)], ret := some rTy,
-                  body := [.ret (some (.un .addr rTy (.slit sTy [.mk "value" (sV "value" elTy)])))] },
-          .func { name := helperFnName "ref_get" t, params := [("reference", rTy)], ret := some elTy,
-                  body := [.ret (some (.field "value" elTy (sV "reference" rTy)))] },
-          .func { name := helperFnName "ref_set" t, params := [("reference", rTy), ("value", elTy)], ret := some .unit,
-                  body := [.fieldAssign (.field "value" elTy (sV "reference" rTy)) (sV "value" elTy),
-                           .ret (some unitE)] }]
+         [.structDef (refStructName elem) [("value", goTy elem)] [],
+          .func (refFn t elem), .func (refGetFn t elem), .func (refSetFn t elem)]
      | _ => []) ++ refRuntime rest
 
 def okRefRuntime (ts : List Ty) : Bool :=
